@@ -79,6 +79,19 @@ CLAIMED = {
         'note': TB + ' Does not decide absence of deadlock / lost wake-up over all interleavings of the composed protocol.',
         'technique': 'custom static analysis: lock-set dataflow, condition-variable discipline, must-pass-through / loop-shape rules on the CFG, sibling agreement of purge predicates',
     },
+    'C11': {
+        'text': 'Clause-limited static decision (level "other"): (1) every push on the repetition-history stack is popped on every '
+                'non-exceptional path (incl. the ABDADA retry path) and, in the main search, holds the hash of the position before the '
+                'move; (2) in negaScout both draw tests dominate the TT probe, the tablebase probe, the evaluation and all recursive '
+                'search, a claimable repetition returns exactly 0, and in the 50-move branch `return 0` is unreachable when the side to '
+                'move is in check without a legal move; (3) the game history handed to the search is built hash-before-move and is '
+                'dropped only on reversible-move information; the first-new index is the history size; (4) every GameState has an arm '
+                'in the state and PGN-result switches. Right level: "for every game history" - the stack discipline and test ordering '
+                'are history-independent necessary conditions; the index arithmetic of the repetition scan is value-level and not claimed.',
+        'design_ref': 'DESIGN.md section 2, C11',
+        'note': TB + ' Does not decide the index arithmetic of canClaimDrawRep nor console claim semantics.',
+        'technique': 'custom static analysis: push/pop pairing on the CFG, dominance (must-precede), flag-sensitive dataflow for the mate-before-draw ordering, guard-set checks, switch exhaustiveness',
+    },
     'C12': {
         'text': 'Clause-limited static decision (level "other"): (1) the on-demand generator object and the reserved-region flag of the '
                 'transposition table form an inductive class invariant - no method can return with a constructed-but-not-generated '
